@@ -7,7 +7,7 @@ from .ref_jsonpath import is_singular
 
 NAMES_PLAIN = ["a", "b", "c", "d", "ab", "A", "_", "_a", "a1", "x"]
 NAMES_RESERVED = ["and", "or", "not", "in", "true", "false", "null", "nil", "none", "contains", "undefined", "missing", "True", "None", "length", "count"]
-NAMES_DIGITS = ["0", "1", "2", "01", "10", "-1", "+1", " 1", "1_0", "１", "1e0", "0x1", "12345678901234567890"]
+NAMES_DIGITS = ["0", "1", "2", "01", "10", "-1", "+1", " 1", "1_0", "１", "1e0", "0x1", "12345678901234567890", "1\n", "0\n", "\n1", "1 ", "1\r", "-7\n", "1\t", "00"]
 NAMES_PUNCT = ["", "~", "/", "~1", "~0", "a/b", "m~n", "#", "#a", "#0", "-", "a-b", "$", "@", "*", ".", "..", "[", "]", "a b", " ", "?", ",", ":", "(", "|", "&", "^"]
 NAMES_QUOTE = ["'", '"', "\\", "a\\", "\\'", '\\"', "a'b", 'a"b', "\\\\", "\\n", "\\u0041"]
 NAMES_CTRL = ["\n", "\t", "\r", "\b", "\f", "\u0000", "\u001f", "\u007f", "a\nb"]
